@@ -417,7 +417,7 @@ def k_gen(ctx, count):
                 m = gen_mode(rng) if rng.random() < 0.45 else ""
                 d = gen_mode(rng) if rng.random() < 0.2 else ""
                 ops.append((si, "sub", [ref, hx(m), hx(d)]))
-                if rng.random() < 0.3 and ref != "sys":
+                if rng.random() < 0.3:
                     # once attached: name somebody in {set sub} (the peer, a third user, oneself), with or without a mode
                     t2 = rng.choice([0] + users)
                     ops.append((si, "setsub", [ref, t2, hx(gen_mode(rng) if rng.random() < 0.6 else "")]))
@@ -430,10 +430,6 @@ def k_gen(ctx, count):
                                 (si, "setsub", [ref, pv, hx(rng.choice(["", "", "JRWPA", "N"]))])]
             elif r < 0.72:
                 t = rng.choice([0, 0] + users)
-                if ref == "sys" and t in (0, u):
-                    # a root user who drops J from the own 'sys' subscription crashes the server on the next
-                    # {sub sys} (getDefaultAccess panics on TopicCatSys): outside C07, reported to C13
-                    continue
                 ops.append((si, "setsub", [ref, t, hx(gen_mode(rng))]))
             elif r < 0.90:
                 ops.append((si, "leave", [ref, 1 if rng.random() < 0.55 else 0]))
@@ -448,6 +444,15 @@ def k_gen(ctx, count):
                     tok = "f%d" % u
                 if tok:
                     ops.append((0, "unload", [tok]))
+        if rng.random() < 0.5 and len(users) >= 2:
+            # two participants attach and set each other's grant and their own want with grammar modes
+            x, y = rng.sample(users, 2)
+            sx = [s for s in sids if sc.sessions[s] == x][0]
+            sy = [s for s in sids if sc.sessions[s] == y][0]
+            ops += [(sx, "sub", ["u%d" % y, hx(gen_mode(rng) if rng.random() < 0.3 else ""), hx("")]), (sy, "sub", ["u%d" % x, hx(""), hx("")])]
+            for _ in range(rng.randint(2, 5)):
+                s1, me, other = rng.choice([(sx, x, y), (sy, y, x)])
+                ops.append((s1, "setsub", ["u%d" % other, rng.choice([other, other, 0, me]), hx(gen_mode(rng))]))
         sc.ops = ops
         res.append(sc)
     return res
@@ -582,21 +587,38 @@ def k_monitor(sc, blocks):
                         if prows.get(u) == (wt, g, dl) and prev is not None:
                             continue      # nothing new about this row at this request
                         if u not in (x, y):
-                            res.append(("p2p-third-participant", k, "%s: %s subscription of user %d (%s/%s) in the p2p topic of %d and %d"
+                            # the reproduced defect: a participant names the third user in {set sub}; everything the
+                            # third user does with that subscription afterwards is its consequence
+                            invited = (kind == "setsub" and a in (x, y) and args[1] == u) or u in pt["store"]
+                            res.append(("p2p-third-participant-by-invite" if invited else "p2p-third-participant", k,
+                                        "%s: %s subscription of user %d (%s/%s) in the p2p topic of %d and %d"
                                         % (tok, where, u, mstr(wt), mstr(g), x, y)))
                             continue
                         peer = y if u == x else x
                         pacc = sc.users[peer][0]
-                        for nm, m in (("want", wt), ("given", g)):
+                        # the reproduced defect of initTopicP2P: the requester's grant is the peer's account default,
+                        # unmasked, written when the row is created by a {sub}; the want "grant | default" follows it
+                        # (initTopicP2P also copies the peer's grant, itself such a default, into the requester's want)
+                        src = 0
+                        if g == pacc:
+                            src |= g
+                        if peer in rows and rows[peer][1] == sc.users[u][0]:
+                            src |= rows[peer][1]
+                        from_init = kind == "sub" and (g == pacc or src) and (not prows.get(u) or prows[u][2] or prows[u][1] == g)
+                        for idx, (nm, m) in enumerate((("want", wt), ("given", g))):
+                            oldr = prows.get(u)
+                            if prev is not None and oldr is not None and oldr[idx] == m:
+                                continue      # this mode did not change at this request
+                            derived = (nm == "given" and g == pacc) or (nm == "want" and wt & ~src == 0)
                             if m & ~CP2P:
-                                unmasked = (m & ~CP2P) & ~pacc == 0 and bits_sub(g, pacc)
-                                res.append(("p2p-initiator-grant-unmasked" if unmasked else "p2p-mode-exceeds-JRWPA", k,
+                                res.append(("p2p-initiator-grant-unmasked" if from_init and derived else "p2p-mode-exceeds-JRWPA", k,
                                             "%s: %s %s of user %d is %s" % (tok, where, nm, u, mstr(m))))
                             if not m & A:
-                                if g == pacc and not pacc & A and (nm == "given" or wt & ~g == 0):
-                                    # the unmasked peer default (N), and the want derived from it by "grant | default"
+                                old = prows.get(u)
+                                if from_init and derived:
                                     law = "p2p-initiator-grant-unmasked"
-                                elif nm == "given" and g == J:
+                                elif (nm == "given" and g == J and kind == "setsub" and a == peer and args[1] == u and args[2] == "-"
+                                      and (old is None or old[2])):
                                     law = "p2p-reinvite-grant-lacks-approve"
                                 else:
                                     law = "p2p-approve-dropped"
@@ -605,14 +627,15 @@ def k_monitor(sc, blocks):
                         old = prows.get(u)
                         if old is not None and not old[2] and not dl and prev is not None:
                             if old[1] != g and not (kind == "setsub" and a == peer and args[1] == u):
-                                res.append(("p2p-given-changed-unauthorised", k, "%s: %s grant of user %d %s -> %s by %s of user %s"
+                                third = a not in (x, y) and a in pt["store"]     # consequence of the invited third participant
+                                res.append(("p2p-third-participant-by-invite" if third else "p2p-given-changed-unauthorised", k, "%s: %s grant of user %d %s -> %s by %s of user %s"
                                             % (tok, where, u, mstr(old[1]), mstr(g), kind, a)))
                             if old[0] != wt and a != u:
                                 res.append(("p2p-want-changed-unauthorised", k, "%s: %s want of user %d %s -> %s by %s of user %s"
                                             % (tok, where, u, mstr(old[0]), mstr(wt), kind, a)))
                 for s, u in t["sess"].items():
                     if u not in (x, y) and s not in pt["sess"]:
-                        res.append(("p2p-third-participant", k, "%s: session %d of user %d attached to the p2p topic of %d and %d" % (tok, s, u, x, y)))
+                        res.append(("p2p-third-participant-by-invite" if u in pt["store"] else "p2p-third-participant", k, "%s: session %d of user %d attached to the p2p topic of %d and %d" % (tok, s, u, x, y)))
             elif tok[0] in "mf":
                 owner = int(tok[1:])
                 for where, rows, prows in places:
